@@ -966,6 +966,13 @@ pub fn ainit(id: i64, b: i64) -> GF<Res> {
     };
     gf(id, r, false)
 }
+/// something a branch's own expression awaits (`f(g().await)`): a gate future without a value
+pub fn wait(id: i64) -> GF<()> {
+    GF { id, out: Some(()), ret: Value::Null, arrived: false, exit_ev: false }
+}
+pub fn ainit_after(_: (), id: i64, b: i64) -> GF<Res> {
+    ainit(id, b)
+}
 pub fn ainit_q(id: i64, b: i64) -> GF<Res> {
     let _q = Quiet::new();
     let r = match act(&format!("f{}", id)).as_str() {
